@@ -51,6 +51,12 @@ def run(ctx, rep):
     from . import c01
     from ..report import Renamed
     c01.r15(ctx, Renamed(rep, to="R20.6"))
+    rep.rule("R20.7", "the point kept for the callback does not alias solver state that is later modified in place (see C02 R2.8)")
+    from . import c02, c09
+    c02.r28(ctx, Renamed(rep, to="R20.7"), rule="R20.7")
+    rep.rule("R20.8", "a StopIteration of the callback ends the run at that evaluation: no user code is reachable after CallbackSuccess is caught (see C09 R9.1)")
+    ucr, pruned = c09.user_code_reach(ctx)
+    c09.r91(ctx, Renamed(rep, to="R20.8"), ucr, pruned)
 
 
 def _cb_is_set_test(ctx, E, cfg):
